@@ -70,6 +70,66 @@ PROPS = {
         partial=["ops_preserve_valid (invariant preservation over histories) and the CLI gate (exit status 3 unless "
                  "--do-check=false) are decided by the run, not yet by a theorem"],
     ),
+    "C03": dict(
+        modules=["Whawty.Props.C03"],
+        suites=[("hdrv", "c03"), ("hdrv", "c03tr")],
+        level_text="invalid_name_noop (every operation of the repaired code fails or is a no-op on a name outside the "
+                   "grammar), valid names contain no path syntax, effects of every operation are confined to "
+                   "<name>.user / <name>.admin / .tmp of the directory map, List shows only valid names and an "
+                   "invalid-named admin file never counts: Lean theorems. Against the code: all six operations on ~50 "
+                   "invalid names in a sandbox with a sibling store and decoy files (whole-tree snapshots), and the same "
+                   "under strace with the verified checkers `confined` / `untouchedStore` on the real path sets.",
+        rule="Names: path separators, '..' segments, absolute, empty, leading - . _ @, control bytes, NUL, > NAME_MAX, "
+             "aliases after cleaning, trailing newline, random strings over a separator-rich alphabet, plus valid names; "
+             "x authenticate/exists/add/update/set-admin/remove; sandbox = store + sibling-store + decoys incl. "
+             "<base>.admin (what the empty name would address).",
+        trusted=[T_FS, "strace (ptrace) output as the record of the paths a process touched; the Go trace parser"],
+        partial=["filepath.Join/Clean are not modelled: that <base>/<name> is the path of entry <name> is observed on "
+                 "the strace traces (path classes), not proved", "frontends are covered by C04's harness"],
+        assumptions=["no symlinks inside the base directory"],
+    ),
+    "C08": dict(
+        modules=["Whawty.Props.C08"],
+        suites=[("hdrv", "c08")],
+        level_text="Persistence machine (file data durable at fsync, directory operations at fsync of the directory, any "
+                   "subset of pending directory operations may survive, un-synced data is torn). crashAtomic_sound: the "
+                   "Boolean checker implies the statement for EVERY system-call boundary and EVERY subset; "
+                   "model_update_atomic / model_add_atomic: the writeHashStr protocol satisfies it for all contents. The "
+                   "driver evaluates the verified checker on the REAL strace trace of every traced add/update/init and "
+                   "compares the mutation skeleton with the model's.",
+        rule="add / update / init in a child process under strace (write payloads captured), stores with and without "
+             "auxiliary data and with or without an existing .tmp; exhaustive over all prefixes x all subsets of pending "
+             "directory operations of each trace.",
+        trusted=["the standard abstract persistence model (not a model of ext4/xfs); 'torn' over-approximates partial writes",
+                 "strace output and the Go trace parser (copy_file_range and read offsets are modelled)", T_GO],
+        partial=["process-kill replays of the real code at every syscall are not yet run (kill views are computed by the "
+                 "checker from the trace)"],
+    ),
+    "C09": dict(
+        modules=["Whawty.Props.C09"],
+        suites=[("hdrv", "c09")],
+        level_text="durableAtAck_sound: the checker implies that from the acknowledgement on, under every subset of "
+                   "pending directory operations, the name shows exactly the acknowledged content; model theorems for "
+                   "add / update / set-admin / remove of the repaired code and the negation for the pinned code (D4). "
+                   "Evaluated on the real strace trace of every traced mutating operation.",
+        rule="init / add / update / set-admin / remove under strace on populated stores; exhaustive over all states from "
+             "the return on x all subsets of pending directory operations.",
+        trusted=["the standard abstract persistence model", "strace output and the Go trace parser", T_GO],
+    ),
+    "C15": dict(
+        modules=["Whawty.Props.C15"],
+        suites=[("hdrv", "c15ro"), ("hdrv", "c15f"), ("hdrv", "c01")],
+        level_text="Frame theorems (update preserves auxiliary data and every other entry byte for byte, set-admin moves "
+                   "the node), protocol-level fault analysis of writeHashStr (every stop before the rename + deferred "
+                   "cleanup leaves every name as it was, for all contents; pinned add leaves the reservation: D7). "
+                   "Against the code: snapshots around every call of generated histories, EVERY single system-call "
+                   "failure (strace fault injection) in every mutating operation, read-only calls under strace.",
+        rule="(a) histories of C01 with auxiliary data of all shapes; (b) per mutating operation the baseline trace, "
+             "then one re-run per (injectable call, errno in ENOSPC/EIO/EACCES/EMFILE) with strace -e inject; (c) "
+             "authenticate/exists/list/list-full/check under strace: no mutating event.",
+        trusted=[T_FS, "strace fault injection lands on the intended call (verified per run by the INJECTED tag)", T_CRYPTO],
+        partial=["failed_op_changes_nothing holds only up to the commit point: see known finding D10 (error-after-commit)"],
+    ),
     "C05": dict(
         modules=["Whawty.Props.C05"],
         suites=[("hdrv+pam", "c05")],
